@@ -235,7 +235,7 @@ func IntLen(t *Thread, v Value) (int64, error) {
 		return int64(len(s)), nil
 	}
 	res := NewTerminationWith(t.CurrentCont(), 1, false)
-	err, ok := Metacall(t, v, "__len", []Value{v}, res)
+	err, ok := Metacall(t, v, "__len", []Value{v, v}, res)
 	if ok {
 		if err != nil {
 			return 0, err
@@ -258,7 +258,7 @@ func Len(t *Thread, v Value) (Value, error) {
 		return IntValue(int64(len(s))), nil
 	}
 	res := NewTerminationWith(t.CurrentCont(), 1, false)
-	err, ok := Metacall(t, v, "__len", []Value{v}, res)
+	err, ok := Metacall(t, v, "__len", []Value{v, v}, res)
 	if ok {
 		if err != nil {
 			return NilValue, err
@@ -520,7 +520,9 @@ func metabin(t *Thread, f string, x Value, y Value) (Value, error, bool) {
 
 func metaun(t *Thread, f string, x Value) (Value, error, bool) {
 	res := NewTerminationWith(t.CurrentCont(), 1, false)
-	err, ok := Metacall(t, x, f, []Value{x}, res)
+	// The metamethod of a unary operator is called with a dummy second
+	// operand equal to the first one (Lua 5.4 manual, 2.4).
+	err, ok := Metacall(t, x, f, []Value{x, x}, res)
 	if ok {
 		return res.Get(0), err, true
 	}
